@@ -1,0 +1,322 @@
+// Copyright 2024 RisingLight Project Authors. Licensed under Apache-2.0.
+
+//! Replay entry points for the contract-based verification in /verif (compiled only with the
+//! cargo feature `verif_hooks`). Each function runs REAL code of this crate on plain data, so that
+//! a failing obligation can be replayed natively. Nothing here is used by the database itself.
+
+use std::panic::{AssertUnwindSafe, catch_unwind};
+use std::sync::Arc;
+
+use bytes::Buf;
+use moka::future::Cache;
+use risinglight_proto::rowset::BlockIndex;
+use risinglight_proto::rowset::block_checksum::ChecksumType;
+
+use super::block::{
+    BlockBuilder, BlockIterator, NullableBlockBuilder, NullableBlockIterator,
+    PlainPrimitiveBlockBuilder, PlainPrimitiveBlockIterator, decode_nullable_block,
+    decode_u32_slice, encode_32,
+};
+use super::encode::PrimitiveFixedWidthEncode;
+use super::index::ColumnIndex;
+use super::index_builder::IndexBuilder;
+use super::rowset::{DiskRowset, RowsetBuilder, RowsetWriter};
+use super::{
+    ColumnBuilderOptions, DeleteVector, EncodeType, IOBackend, Manifest, SecondaryRowHandler,
+};
+use crate::array::{ArrayBuilder, ArrayImpl, ArrayToVecExt, I32ArrayBuilder};
+use crate::catalog::{ColumnCatalog, ColumnDesc};
+use crate::types::{DataType, DataValue, Interval};
+
+fn guarded<T>(f: impl FnOnce() -> Result<T, String>) -> Result<T, String> {
+    match catch_unwind(AssertUnwindSafe(f)) {
+        Ok(r) => r,
+        Err(e) => Err(format!(
+            "PANIC: {}",
+            e.downcast_ref::<String>()
+                .cloned()
+                .or_else(|| e.downcast_ref::<&str>().map(|s| s.to_string()))
+                .unwrap_or_default()
+        )),
+    }
+}
+
+/// a fresh scratch directory (removed by the caller's `ScratchDir` drop)
+struct ScratchDir(std::path::PathBuf);
+impl ScratchDir {
+    fn new() -> Result<Self, String> {
+        static N: std::sync::atomic::AtomicU64 = std::sync::atomic::AtomicU64::new(0);
+        let p = std::env::temp_dir().join(format!(
+            "risinglight-verif-{}-{}",
+            std::process::id(),
+            N.fetch_add(1, std::sync::atomic::Ordering::SeqCst)
+        ));
+        std::fs::create_dir_all(&p).map_err(|e| e.to_string())?;
+        Ok(Self(p))
+    }
+    fn path(&self) -> &std::path::Path {
+        &self.0
+    }
+}
+impl Drop for ScratchDir {
+    fn drop(&mut self) {
+        let _ = std::fs::remove_dir_all(&self.0);
+    }
+}
+
+fn block_on<F: std::future::Future>(f: F) -> F::Output {
+    tokio::runtime::Builder::new_current_thread()
+        .enable_all()
+        .build()
+        .unwrap()
+        .block_on(f)
+}
+
+// ---------------------------------------------------------------- codecs
+
+/// encode_32 then decode_u32_slice: Ok iff the value and the length come back.
+pub fn varint_roundtrip(v: u32) -> Result<(), String> {
+    guarded(|| {
+        let mut buf = Vec::new();
+        encode_32(v, &mut buf);
+        match decode_u32_slice(&buf) {
+            Ok((value, adv)) if value == v && adv == buf.len() => Ok(()),
+            other => Err(format!("encode_32({v}) = {buf:?} decodes to {other:?}")),
+        }
+    })
+}
+
+pub fn interval_roundtrip_secs(secs: i32) -> Result<(), String> {
+    guarded(|| {
+        let x = Interval::from_secs(secs);
+        let mut buf = Vec::new();
+        x.encode(&mut buf);
+        let mut rd: &[u8] = &buf;
+        let y = Interval::decode(&mut rd);
+        if x == y && rd.remaining() == 0 {
+            Ok(())
+        } else {
+            Err(format!(
+                "Interval::from_secs({secs}) = {x:?} reads back as {y:?}"
+            ))
+        }
+    })
+}
+
+pub fn i32_roundtrip(v: i32) -> Result<(), String> {
+    guarded(|| {
+        let mut buf = Vec::new();
+        v.encode(&mut buf);
+        let mut rd: &[u8] = &buf;
+        let y = i32::decode(&mut rd);
+        if y == v && buf.len() == 4 {
+            Ok(())
+        } else {
+            Err(format!("{v} -> {buf:?} -> {y}"))
+        }
+    })
+}
+
+pub fn rowhandler_roundtrip(rowset_id: u32, row_id: u32) -> Result<(), String> {
+    guarded(|| {
+        let h = SecondaryRowHandler(rowset_id, row_id);
+        let packed = h.as_i64();
+        if packed < 0 {
+            return Err(format!("{h:?} packs to the negative {packed}"));
+        }
+        let back = SecondaryRowHandler::from(packed);
+        if back == h {
+            Ok(())
+        } else {
+            Err(format!("{h:?} -> {packed} -> {back:?}"))
+        }
+    })
+}
+
+// ---------------------------------------------------------------- index file
+
+pub fn index_build(entries: &[(u64, u64, u32, u32)], crc: bool) -> Vec<u8> {
+    let ty = if crc {
+        ChecksumType::Crc32
+    } else {
+        ChecksumType::None
+    };
+    let mut b = IndexBuilder::new(ty, entries.len());
+    for &(offset, length, first_rowid, row_count) in entries {
+        b.append(BlockIndex {
+            offset,
+            length,
+            first_rowid,
+            row_count,
+            ..Default::default()
+        });
+    }
+    b.finish()
+}
+
+/// ColumnIndex::from_bytes on arbitrary bytes: Ok(decoded entries) / Err(message); a panic is
+/// reported as Err("PANIC: ..").
+pub fn index_from_bytes(data: &[u8]) -> Result<Vec<(u64, u64, u32, u32)>, String> {
+    guarded(|| {
+        ColumnIndex::from_bytes(data)
+            .map(|ix| {
+                ix.indexes()
+                    .iter()
+                    .map(|e| (e.offset, e.length, e.first_rowid, e.row_count))
+                    .collect()
+            })
+            .map_err(|e| format!("{e}").lines().next().unwrap_or("").to_string())
+    })
+}
+
+/// Column::decode_block_meta on arbitrary bytes (data ++ 16-byte trailer).
+pub fn decode_block_meta(block: &[u8], verify: bool) -> Result<(), String> {
+    guarded(|| {
+        super::column::Column::verif_decode_block_meta(block, verify)
+            .map(|_| ())
+            .map_err(|e| format!("{e}").lines().next().unwrap_or("").to_string())
+    })
+}
+
+/// a block as BlockIndexBuilder::finish_block writes it (Plain, CRC32), returned as the bytes
+/// appended to the column file
+pub fn finish_block(payload: &[u8]) -> Vec<u8> {
+    use risinglight_proto::rowset::block_index::BlockType;
+    let options = ColumnBuilderOptions {
+        target_block_size: 4096,
+        checksum_type: ChecksumType::Crc32,
+        encode_type: EncodeType::Plain,
+        record_first_key: false,
+    };
+    let mut b = super::block::BlockIndexBuilder::new(options);
+    let mut column_data = vec![];
+    let mut block_data = payload.to_vec();
+    b.finish_block(
+        BlockType::Plain,
+        &mut column_data,
+        &mut block_data,
+        vec![],
+        None,
+    );
+    column_data
+}
+
+// ---------------------------------------------------------------- key-range seek
+
+/// Builds a real one-column row-set (Int32 primary key `keys`, must be sorted) in memory with the
+/// given block size, opens it and asks `DiskRowset::start_rowid(begin)`. Returns the row id.
+pub fn start_rowid(keys: &[i32], target_block_size: usize, begin: i32) -> Result<u32, String> {
+    guarded(|| {
+        block_on(async {
+            let mut desc = ColumnDesc::new("a", DataType::Int32, false);
+            desc.set_primary(true);
+            let columns: Arc<[ColumnCatalog]> = vec![ColumnCatalog::new(0, desc)].into();
+            let options = ColumnBuilderOptions {
+                target_block_size,
+                checksum_type: ChecksumType::Crc32,
+                encode_type: EncodeType::Plain,
+                record_first_key: true,
+            };
+            let mut builder = RowsetBuilder::new(columns.clone(), options);
+            builder.append(
+                [ArrayImpl::new_int32(keys.iter().copied().collect())]
+                    .into_iter()
+                    .collect(),
+            );
+            let backend = IOBackend::in_memory();
+            let dir = std::path::PathBuf::from("/verif-replay/0_0");
+            RowsetWriter::new(&dir, backend.clone())
+                .flush(builder.finish())
+                .await
+                .map_err(|e| e.to_string())?;
+            let rowset = DiskRowset::open(dir, columns, Cache::new(64), 0, backend)
+                .await
+                .map_err(|e| e.to_string())?;
+            match rowset.start_rowid(Some(&DataValue::Int32(begin))).await {
+                super::ColumnSeekPosition::RowId(r) => Ok(r),
+                _ => Err("not a row id".into()),
+            }
+        })
+    })
+}
+
+// ---------------------------------------------------------------- manifest / delete vector files
+
+/// Manifest::replay on a file with exactly these bytes. Ok(debug strings of the replayed ops).
+pub fn manifest_replay(bytes: &[u8]) -> Result<Vec<String>, String> {
+    guarded(|| {
+        block_on(async {
+            let dir = ScratchDir::new()?;
+            let path = dir.path().join("manifest.json");
+            std::fs::write(&path, bytes).map_err(|e| e.to_string())?;
+            let mut m = Manifest::open(&path, false)
+                .await
+                .map_err(|e| e.to_string())?;
+            let ops = m
+                .replay()
+                .await
+                .map_err(|e| format!("{e}").lines().next().unwrap_or("").to_string())?;
+            Ok(ops.iter().map(|o| format!("{o:?}")).collect())
+        })
+    })
+}
+
+/// DeleteVector::write_all then DeleteVector::open through a real file; returns what apply_to hides
+/// among rows 0..n.
+pub fn dv_file_roundtrip(rows: &[u32], n: usize) -> Result<Vec<bool>, String> {
+    use risinglight_proto::rowset::DeleteRecord;
+    guarded(|| {
+        block_on(async {
+            let dir = ScratchDir::new()?;
+            let path = dir.path().join("0_0_0.dv");
+            let file = tokio::fs::File::create(&path)
+                .await
+                .map_err(|e| e.to_string())?;
+            let recs: Vec<DeleteRecord> =
+                rows.iter().map(|r| DeleteRecord { row_id: *r }).collect();
+            DeleteVector::write_all(file, &recs)
+                .await
+                .map_err(|e| e.to_string())?;
+            let dv = DeleteVector::open(0, 0, &path)
+                .await
+                .map_err(|e| e.to_string())?;
+            let mut bv = bitvec::prelude::BitVec::new();
+            bv.resize(n, true);
+            dv.apply_to(&mut bv, 0);
+            Ok(bv.iter().map(|b| *b).collect())
+        })
+    })
+}
+
+// ---------------------------------------------------------------- plain / nullable i32 blocks
+
+/// Build a (nullable) plain i32 block from `items`, then read it back: skip `skip` rows, then
+/// batches of `batch` rows until exhausted.
+pub fn nullable_block_read(
+    items: &[Option<i32>],
+    skip: usize,
+    batch: usize,
+) -> Result<Vec<Option<i32>>, String> {
+    guarded(|| {
+        let inner = PlainPrimitiveBlockBuilder::<i32>::new(1 << 20);
+        let mut b = NullableBlockBuilder::new(inner, 1 << 20);
+        for it in items {
+            b.append(it.as_ref());
+        }
+        let data = bytes::Bytes::from(b.finish());
+        let (inner_block, bitmap_block) = decode_nullable_block(data);
+        let inner_iter = PlainPrimitiveBlockIterator::<i32>::new(inner_block, items.len());
+        let mut iter = NullableBlockIterator::new(inner_iter, bitmap_block);
+        iter.skip(skip);
+        let mut out = vec![];
+        loop {
+            let mut builder = I32ArrayBuilder::new();
+            let n = iter.next_batch(Some(batch), &mut builder);
+            if n == 0 {
+                break;
+            }
+            out.extend(builder.finish().to_vec());
+        }
+        Ok(out)
+    })
+}
